@@ -65,6 +65,7 @@ fn oracle(m: &RLib, ctx: &mut Ctx) -> Result<(), String> {
         ctx.label("has a non-identity instance");
     }
     ctx.label(&format!("units {:?}", units_of(m.units)));
+    crate::gen::rawlib::classify(m, ctx);
     ctx.sample("raw library", || format!("{:?}", m));
 
     // ---- directly on the exported GDS -------------------------------------------------------------
